@@ -303,7 +303,10 @@ Inductive cause :=
 | CPreStartFail  (* pre_start returned Err / panicked: the guard cleans up, no event *)
 | CPostStartFail (* post_start failed *)
 | CPreStartKill  (* kill signal while pre_start is running: handle_signal, then the guard, no event *)
-| CPostStartKill (* kill signal while post_start is running *).
+| CPostStartKill (* kill signal while post_start is running *)
+| CAbort         (* the actor's loop task is cancelled (JoinHandle::abort / runtime shutdown) before its
+                    first poll, while idle or inside a handler: Drop for ActorLifecycleGuard *)
+| CAbortPs       (* ... cancelled while post_stop is parked *).
 
 Definition guard_cleanup (ev sup : bool) : list instr :=
   [ISet Stopping; ITerminate] ++ (if ev && sup then [INotifySup] else [])
@@ -319,6 +322,11 @@ Definition exit_prog (c : cause) (sup : bool) : list instr :=
   | CPostStartFail => [IGate 0] ++ guard_cleanup true sup
   | CPreStartKill => [IGate 0; ITerminate] ++ guard_cleanup false false
   | CPostStartKill => [IGate 0; ITerminate] ++ guard_cleanup true sup
+  (* a cancelled task: the guard's Drop runs the cleanup; it reports the terminal event iff the
+     actor had been marked running, which start() does BEFORE it creates the loop task — so every
+     cancellation of the loop task is reported (a cancelled start task is CPreStartFail: no event) *)
+  | CAbort => [IGate 0] ++ guard_cleanup true sup
+  | CAbortPs => [IGate 0; ISet Stopping; IPsEnter; IGate 2; IPsCancel] ++ guard_cleanup true sup
   end.
 
 (* ---------- snapshots and the executable property ---------- *)
@@ -410,7 +418,7 @@ Definition check_C06 (want_ps want_sup complete : bool) (l : list obs) : bool :=
 
 (* expectations attached to a cause *)
 Definition want_ps_of (c : cause) : bool :=
-  match c with CStop | CStopKill => true | _ => false end.
+  match c with CStop | CStopKill | CAbortPs => true | _ => false end.
 Definition want_sup_of (c : cause) (sup : bool) : bool :=
   match c with CPreStartFail | CPreStartKill => false | _ => sup end.
 
